@@ -25,7 +25,7 @@ namespace Flox
 
 /-! ### the hand-written table of proven blueprints -/
 
-inductive Family where
+inductive AggFamily where
   | column (k c : Kernel) (fill : String)
   | mean (nan : Bool)
   | var (nan : Bool) (std : Bool)
@@ -82,7 +82,7 @@ def argValueFill : Kernel → String
 
 /-- the text a blueprint of the family must have; `numpyName` is the registry key
     (the NumPy-level reduction the family computes) -/
-def Family.core (key : String) : Family → Core
+def AggFamily.core (key : String) : AggFamily → Core
   | .column k c f =>
     { numpy := [if key = "count" then "nanlen" else key], chunk := [k.pyName], combine := [c.pyName], fills := [f],
       finalize := "None", reductionType := "reduce" }
@@ -101,7 +101,7 @@ def Family.core (key : String) : Family → Core
 
 /-- well-formedness = the family's law is available: a column must be one of `floatColumns` and the column's chunk
     kernel must be the NumPy kernel named by the key; an arg family must be one of the four arg kernels -/
-def Family.wf (key : String) : Family → Bool
+def AggFamily.wf (key : String) : AggFamily → Bool
   | .column k c f =>
     (match floatFill f with
       | some v => decide ((k, c, v) ∈ floatColumns)
@@ -112,7 +112,7 @@ def Family.wf (key : String) : Family → Bool
   | .arg k => (k == .argmax || k == .argmin || k == .nanargmax || k == .nanargmin) && k.pyName == key
 
 /-- **the proven blueprints** (registry key ↦ family) -/
-def provenBlueprints : List (String × Family) :=
+def provenBlueprints : List (String × AggFamily) :=
   [ ("any", .column .any .any "0"), ("all", .column .all .all "1"), ("count", .column .nanlen .sum "0"),
     ("sum", .column .sum .sum "0"), ("nansum", .column .nansum .sum "0"),
     ("prod", .column .prod .prod "1"), ("nanprod", .column .nanprod .prod "1"),
